@@ -312,8 +312,16 @@ def body(chk, db, cfgname):
         site = "%s" % strip_targs(f.name)
         good = False
         why = "no return"
+        shortcut = None
+        ngood = 0
         for j in rets:
             rk = ctx.key(f.nodes[j]["sub"])
+            rk0 = rk[2] if rk[0] == "cast" else rk
+            if rk0[0] == "op" and rk0[1] == "()" and len(rk0) == 6 and tuple(rk0[3:]) == (n1, n2, n3):
+                # the element at the UNPERMUTED frequencies, without the sign: only right for the identity permutation
+                fa_ = guard_facts(f, ctx).get(f.cfg.pos1(j), frozenset())
+                conds = [x for x in fa_ if key_contains(x, lambda y: y[0] == "field" and y[1].startswith("Pomerol::Permutation4::"))]
+                shortcut = (j, "; ".join(sorted(str(x)[:70] for x in conds)) or "unconditionally")
             # (elem(M[perm[0]], M[perm[1]], M[perm[2]]) * RealType(sign))   — either operand order
             if rk[0] == "op" and rk[1] == "*":
                 a, b = rk[2], rk[3]
@@ -327,10 +335,16 @@ def body(chk, db, cfgname):
                         want = [("op", "[]", M, ("op", "[]", perm, ("lit", i))) for i in range(3)]
                         if list(args) == want:
                             good = True
+                            ngood += 1
                         else:
                             why = "element is not evaluated at M[perm[0]], M[perm[1]], M[perm[2]] with M = {n1, n2, n3, n1+n2-n3}"
-        if good:
+        if shortcut is not None:
+            r2.bad(site, f.loc(shortcut[0]), "on some path the element is returned at the unpermuted frequencies (n1,n2,n3) without the permutation (%s): that is right for the identity permutation only — e.g. the double exchange (2,1,4,3) "
+                   "is even as well, so a test of the sign does not single out the identity" % shortcut[1], cfgname)
+        elif good and ngood == len(rets):
             r2.ok(site, f.loc(), "(*pElement)(M[perm[0]], M[perm[1]], M[perm[2]]) * sign with M = {n1,n2,n3,n1+n2-n3}", cfgname)
+        elif good:
+            r2.unknown(site, f.loc(), "one return has the expected form, another one is not analysed", cfgname)
         else:
             r2.bad(site, f.loc(), why, cfgname)
 
@@ -371,7 +385,13 @@ def body(chk, db, cfgname):
         ctx = Ctx(f, db)
         site = "%s:loop%d(%s)" % (nm, wi, M[1].split("::")[-1])
         with r5.guard(site, f.loc(), cfgname):
-            loops_ = map_loops(f, ctx, M)
+            loops_all = map_loops(f, ctx, M)
+            # the loop that carries this action (there may be other loops over the same map, e.g. a counting pass)
+            loops_ = [(j_, s_) for j_, s_ in loops_all if any(n_["k"] == "call" and strip_targs(n_.get("cname") or "") in action_names for _, n_ in f.walk(s_["body"]))]
+            if loops_:
+                loops_ = [loops_[0]] * (wi + 1)
+            else:
+                loops_ = loops_all
             if len(loops_) <= wi:
                 if loops_ or any(n_["k"] in ("for", "forrange", "while") for _, n_ in f.walk(f.body)):
                     raise AnalysisBroken("loop %d over %s not found in a recognised form" % (wi, M[1].split("::")[-1]))
@@ -412,6 +432,44 @@ def body(chk, db, cfgname):
             else:
                 r5.ok(site, f.loc(j), "every element of %s is visited and %s is executed for it%s" % (M[1].split("::")[-1], action_names[0].split("::")[-1],
                                                                                                      " (except elements of another colour)" if skip_ok else ""), cfgname)
+    # the running component counter that selects colour (compute loop) and sender (distribution loop) must advance for the same
+    # elements in both loops, otherwise an element is published from a rank of another colour
+    f = db.fn("Pomerol::TwoParticleGFContainer::computeAll_split")
+    ctx = Ctx(f, db)
+    site = "Pomerol::TwoParticleGFContainer::computeAll_split:component-counter"
+    with r5.guard(site, f.loc(), cfgname):
+        loops_all = map_loops(f, ctx, NTE)
+        has = lambda s_, nm: any(n_["k"] == "call" and strip_targs(n_.get("cname") or "") == nm for _, n_ in f.walk(s_["body"]))
+        lc = [x for x in loops_all if has(x[1], G2q + "compute")]
+        lb = [x for x in loops_all if has(x[1], "boost::mpi::broadcast")]
+        loops_ = [lc[0], lb[0]] if lc and lb and lc[0][0] != lb[0][0] else []
+        if len(loops_) >= 2:
+            # the counter: an integer local incremented inside / in the header of both loops
+            def incs_of(L):
+                ln = f.nodes[L]
+                nodes_ = {x for part in ("body", "inc") if ln.get(part) is not None for x, _ in f.walk(ln[part])}
+                return {d: [m for m in ms if m in nodes_] for d, ms in ctx.mut.items() if any(m in nodes_ for m in ms) and "int" in (ctx.decls.get(d, {}).get("t") or "") + "int" * ("size_t" in (ctx.decls.get(d, {}).get("t") or ""))}
+            c0, c1 = incs_of(loops_[0][0]), incs_of(loops_[1][0])
+            common = [d for d in c0 if d in c1 and not any(d == s_[1]["var"][1] for s_ in loops_)]
+            if not common:
+                r5.ok(site, f.loc(), "no shared running counter between the compute loop and the distribution loop", cfgname)
+            else:
+                d = common[0]
+                every = []
+                for (L, shp), ms in ((loops_[0], c0[d]), (loops_[1], c1[d])):
+                    in_header = any(m in {x for x, _ in f.walk(f.nodes[L]["inc"])} for m in ms) if f.nodes[L].get("inc") is not None else False
+                    if in_header:
+                        every.append(not shp["continues"] or True)       # the header increment runs after every iteration, also after `continue`
+                    else:
+                        ev = [P_.every_iteration(f, L, m) for m in ms]
+                        every.append(all(x is True for x in ev) and len(ms) == 1)
+                if every[0] == every[1]:
+                    r5.ok(site, f.loc(), "'%s' advances once per element in both loops" % ctx.decls[d]["n"] if every[0] else "'%s' advances under conditions in both loops (conditions not compared)" % ctx.decls[d]["n"], cfgname)
+                else:
+                    r5.bad(site, f.loc(loops_[0][0]), "the component counter '%s' advances for every element in one loop over NonTrivialElements but only for some elements in the other: after the first skipped element "
+                           "the colour used for computing an element and the sender used for publishing it belong to different components (a rank that never computed the element broadcasts its empty terms)" % ctx.decls[d]["n"], cfgname)
+        else:
+            raise AnalysisBroken("the two loops over NonTrivialElements were not found")
     # fill(): every requested combination reaches set() unless present
     fills = [f for f in db.fns.values() if strip_targs(f.name) == IC4 + "::fill"]
     for f in sorted(fills, key=lambda x: x.qn):
